@@ -6,6 +6,7 @@ import Bclv.Model.ProtoRun
 import Bclv.Model.BindWire
 import Bclv.Model.Scoped
 import Bclv.Model.Bufio
+import Bclv.Model.DumpW
 /-!
 # Line-protocol driver: one operation per input line, one result line per operation.
 All payloads are hexadecimal.
@@ -163,6 +164,14 @@ def runOp (words : List String) : String :=
     | .ok p => "ok " ++ fmtProg p
     | .err m => "err " ++ m
     | .panic => "panic"
+  | ["DUMPW", hex] =>
+    -- the sizes of the writes Dump hands to its destination (through the buffered writer)
+    match load (fromHex hex) with
+    | .ok p => (match dumpW p with
+        | some ws => "ok " ++ natList (ws.map List.length) ++ (if ws.flatten == dump p then " same" else " DIFFERENT")
+        | none => "panic")
+    | .err m => "loaderr " ++ m
+    | .panic => "loadpanic"
   | ["LOADC", chunks] =>
     -- Load through the model of the 4096-byte buffered reader, one piece per read
     let cs := if chunks == "." then [] else (chunks.splitOn ",").map fromHex
